@@ -16,9 +16,10 @@ fuzz_target!(|data: &[u8]| {
     };
     let Some(spec) = lsmv::props::spec(id) else { return };
     let mut g = spec.gen.clone();
-    g.max_ops = 120;
-    let strat = lsmv::gen::case(&g);
-    let Some(case) = common::decode(&strat, &data[1..]) else { return };
+    g.max_ops = 80;
+    g.big_pool_pct = 0; // big pools cost seconds per case under ASan; the proptest tiers cover them
+    // bytes -> case by the hand-written decoder (same input domain as the proptest strategy)
+    let case = lsmv::bytecase::decode_case(&g, &data[1..]);
     if let Err(f) = lsmv::runner::run_case(&spec, &case) {
         if lsmv::runner::load_known(id).iter().any(|k| f.what.contains(&k.signature)) {
             return;
